@@ -23,7 +23,9 @@ avars == <<src, occ, hint, mapped, result, phase, tried>>
 SatSub(a, b) == IF a >= b THEN a - b ELSE 0
 Abs(x) == IF x < 0 THEN -x ELSE x
 
-Accepts(a) == IF AcceptTest = "le" THEN Abs(a - src) <= R ELSE Abs(a - src) < R
+Accepts(a) == IF AcceptTest = "le" THEN Abs(a - src) <= R
+              ELSE IF AcceptTest = "a64safe" THEN (a - src >= -R /\ a - src < R)      \* repaired acceptance test
+              ELSE Abs(a - src) < R
 BranchReaches(a) == IF Branch = "x64" THEN Abs(a - src) <= R ELSE (a - src >= -R /\ a - src <= R - 1)
 
 Init ==
